@@ -904,6 +904,9 @@ func (fr *Frame) applyContract(c *Contract, callee *ssa.Function, args []Val, re
 	}
 	fc.callN[name]++
 	for i, r := range c.Requires {
+		if fc.inSpec > 0 {
+			break // a call inside a contract expression (specification context): no proof obligation
+		}
 		g := fc.evalBool(envPre, r.E)
 		fc.addObl(fmt.Sprintf("#req.%s@%s.%d", clauseName(r, i), shortFn(name), fc.callN[name]), "body", and(reach, not(g)), r.Src)
 	}
